@@ -516,3 +516,22 @@ def diff_outcomes(a, b, spec, ignore_regs=(), skip=()):
     if a.bp_hits != b.bp_hits:
         return "breakpoint hits", "%s vs %s" % (a.bp_hits[:10], b.bp_hits[:10])
     return None
+
+
+def count_stores(spec, prog, idx):
+    """number of memory destinations in the IR of instruction @idx of @prog"""
+    from miasm.core.bin_stream import bin_stream_str
+    from miasm.core.locationdb import LocationDB
+    off, ln, txt, nm = prog.instrs[idx]
+    try:
+        loc_db = LocationDB()
+        lifter = spec.machine.lifter(loc_db)
+        raw = prog.code[off - spec.L.CODE: off - spec.L.CODE + ln]
+        instr = spec.mn.dis(bin_stream_str(raw, base_address=off), spec.attrib, off)
+        ircfg = lifter.new_ircfg()
+        lifter.add_instr_to_ircfg(instr, ircfg)
+        return sum(1 for blk in ircfg.blocks.values() for ab in blk for dst in ab if dst.is_mem())
+    except Exception:
+        return -1
+
+
